@@ -21,6 +21,23 @@ type tchunk struct {
 type tscript struct {
 	name   string
 	chunks []tchunk
+	sizes  []int // response sizes of the requests in order, when not all are STAT answers (33 bytes)
+}
+
+// responses: how many complete responses the received bytes make up
+func (sc tscript) responses(got int) int {
+	if sc.sizes == nil {
+		return got / 33
+	}
+	n := 0
+	for _, sz := range sc.sizes {
+		if got < sz {
+			break
+		}
+		got -= sz
+		n++
+	}
+	return n
 }
 
 func encodeChunks(cs []tchunk) string {
@@ -40,28 +57,35 @@ func c16Scripts(T int) []tscript {
 	req := statRootReq
 	long := creq{op: opStatFile, path: "/some/longer/path/that/does/not/exist"}.bytes()
 	var out []tscript
-	out = append(out, tscript{"silent-after-connect", nil})
-	out = append(out, tscript{"three-requests-then-silent", []tchunk{{0, req}, {0, req}, {b, req}}})
-	out = append(out, tscript{"half-command-then-silent", []tchunk{{b, req[:8]}}})
-	out = append(out, tscript{"command-then-partial-path", []tchunk{{0, req}, {b, long[:20]}}})
+	out = append(out, tscript{"silent-after-connect", nil, nil})
+	out = append(out, tscript{"three-requests-then-silent", []tchunk{{0, req}, {0, req}, {b, req}}, nil})
+	out = append(out, tscript{"half-command-then-silent", []tchunk{{b, req[:8]}}, nil})
+	out = append(out, tscript{"command-then-partial-path", []tchunk{{0, req}, {b, long[:20]}}, nil})
 	// active: a request every T/2 for 6T, then silence
 	var active []tchunk
 	for i := 0; i < 12; i++ {
 		active = append(active, tchunk{b, req})
 	}
-	out = append(out, tscript{"active-every-half-T", active})
+	out = append(out, tscript{"active-every-half-T", active, nil})
 	// slow delivery of ONE command: 4 pieces T/2 apart -> takes 1.5T > T: partial bytes do not re-arm the timer
-	out = append(out, tscript{"slowloris", []tchunk{{0, req[:4]}, {b, req[4:8]}, {b, req[8:12]}, {b, req[12:]}}})
+	out = append(out, tscript{"slowloris", []tchunk{{0, req[:4]}, {b, req[4:8]}, {b, req[8:12]}, {b, req[12:]}}, nil})
 	// a request in two halves T/2 apart (complete within T): served
-	out = append(out, tscript{"two-halves-in-time", []tchunk{{0, long[:10]}, {b, long[10:]}, {b, req}}})
+	out = append(out, tscript{"two-halves-in-time", []tchunk{{0, long[:10]}, {b, long[10:]}, {b, req}}, nil})
 	// path arrives T/2 after its command: still the same deadline, still in time
-	out = append(out, tscript{"path-after-command", []tchunk{{0, long[:16]}, {b, long[16:]}}})
+	out = append(out, tscript{"path-after-command", []tchunk{{0, long[:16]}, {b, long[16:]}}, nil})
 	// long-lived: requests spaced just under T (one bucket) for 8T
 	var slow []tchunk
 	for i := 0; i < 8; i++ {
 		slow = append(slow, tchunk{b, req}, tchunk{0, long})
 	}
-	out = append(out, tscript{"long-lived", slow})
+	out = append(out, tscript{"long-lived", slow, nil})
+	// stalled inside the payload of a WRITE_FILE (writing is off: the handler refuses at once and the
+	// rest of the payload is drained - the drain is where the deadline strikes): no answer, cut at T
+	wr := creq{op: opWriteFile, payload: make([]byte, 100), announced: 1000}.bytes()
+	out = append(out, tscript{"stall-in-write-payload", []tchunk{{0, req}, {b, wr}}, []int{33, 4}})
+	// the same after the whole payload has arrived in two parts in time: answered (-1), then idle
+	wr2 := creq{op: opWriteFile, payload: make([]byte, 1000), announced: 1000}.bytes()
+	out = append(out, tscript{"write-payload-two-parts", []tchunk{{0, wr2[:500]}, {b, wr2[500:]}}, []int{4}})
 	return out
 }
 
@@ -119,10 +143,10 @@ func runScript(env *tcpEnv, sc tscript, bucketMs int, limit time.Duration) strin
 	mu.Lock()
 	defer mu.Unlock()
 	if cutAt < 0 {
-		return fmt.Sprintf("resp=%d cut=never", got/33)
+		return fmt.Sprintf("resp=%d cut=never", sc.responses(got))
 	}
 	ms := int((cutAt - late) / time.Millisecond)
-	return fmt.Sprintf("resp=%d cut=%d", got/33, (ms+bucketMs/2)/bucketMs)
+	return fmt.Sprintf("resp=%d cut=%d", sc.responses(got), (ms+bucketMs/2)/bucketMs)
 }
 
 func c16Stream(o *out, r *rng, thorough bool) {
